@@ -287,7 +287,7 @@ def engine_core(prop, tier, seed, work):
 MODEL_CFGS = {
     "C03": ["reuse"], "C04": [], "C10": [], "C12": ["timers"],
     "C01": ["reuse", "edge"], "C02": ["edge", "post"], "C05": ["timers"], "C06": ["reuse", "post"],
-    "C07": ["edge", "timers"], "C08": ["reuse", "idle"], "C09": ["post"], "C13": ["idle"],
+    "C07": ["edge", "timers"], "C08": ["drop", "idle"], "C09": ["post"], "C13": ["idle"],
     "C14": ["life", "synth"], "C15": ["faults", "life"], "C16": ["edge", "reuse"],
 }
 
